@@ -1,6 +1,6 @@
 /-
-C01 — the modelled natives restricted to safe operations satisfy `Adequate` (Proofs/Ledger.lean): the
-votesChanged flag influences neither storage nor results; restart yields adequate caches.
+C01 — the modelled natives satisfy `Adequate` (Proofs/Ledger.lean): the votesChanged flag influences neither
+storage nor results; restart yields adequate caches; every block preserves adequacy.
 -/
 import NeoModel.Proofs.LedgerNeo
 import NeoModel.Proofs.Ledger
@@ -59,25 +59,13 @@ theorem applyBlock_flag (cfg : Cfg) (st : Storage) (c : Caches) (b : Bool) (h : 
   simp [flag]
 
 -- ---------------------------------------------------------------------------------------------
--- the modelled natives, restricted to safe operations, are adequate
-
-def sanitize (tx : Tx) : Tx := if safeOp tx.op then tx else { tx with op := .fault }
-
-theorem sanitize_safe (tx : Tx) : safeOp (sanitize tx).op = true := by
-  unfold sanitize
-  split
-  · assumption
-  · rfl
-
-/-- the natives with every unsafe operation replaced by a faulting one. -/
-def safeSys (cfg : Cfg) : Sys Unit Storage Caches (List Tx) (List Res) Getters :=
-  { nativeSys cfg with apply := fun rd c h txs => (nativeSys cfg).apply rd c h (txs.map sanitize) }
+-- the modelled natives are adequate
 
 def Good (cfg : Cfg) (sv : Unit → Option Storage) (c : Caches) (h : Nat) : Prop :=
   ∃ st, sv () = some st ∧ c.policy = initPolicy st ∧ NeoGood cfg st c.neo h
 
-theorem stateView_safe (cfg : Cfg) (rd : Unit → Option Storage) : stateView (safeSys cfg) rd = rd := by
-  funext k; simp [stateView, safeSys, nativeSys]
+theorem stateView_native (cfg : Cfg) (rd : Unit → Option Storage) : stateView (nativeSys cfg) rd = rd := by
+  funext k; simp [stateView, nativeSys]
 
 theorem initNeo_good (cfg : Cfg) (st : Storage) (h : Nat) : NeoGood cfg st (initNeo cfg st h) h := by
   unfold initNeo
@@ -105,24 +93,23 @@ theorem good_caches_eq (cfg : Cfg) (st : Storage) (c₁ c₂ : Caches) (h : Nat)
   subst p1 p2 a c e g
   simp only [b, d, f, i]
 
-theorem safeSys_adequate (cfg : Cfg) : Adequate (safeSys cfg) (Good cfg) where
-  apply_state := by intro rd c h b; rw [stateView_safe]
-  init_state := by intro rd h; rw [stateView_safe]
+theorem nativeSys_adequate (cfg : Cfg) : Adequate (nativeSys cfg) (Good cfg) where
+  apply_state := by intro rd c h b; rw [stateView_native]
+  init_state := by intro rd h; rw [stateView_native]
   good_restart := by
     intro sv c h ⟨st, hsv, _, _⟩
     refine ⟨st, hsv, ?_, ?_⟩
-    · simp [safeSys, nativeSys, hsv, initCaches]
-    · simp only [safeSys, nativeSys, hsv, initCaches]
+    · simp [nativeSys, hsv, initCaches]
+    · simp only [nativeSys, hsv, initCaches]
       exact initNeo_good cfg st h
   good_step := by
     intro sv c h b ⟨st, hsv, hp, hg⟩
-    have hgood := applyBlock_good cfg st c h (b.map sanitize)
-      (by intro tx htx; obtain ⟨t, _, rfl⟩ := List.mem_map.mp htx; exact sanitize_safe t) hp hg
-    refine ⟨(applyBlock cfg st c (h + 1) (b.map sanitize)).1, ?_, ?_, ?_⟩
-    · rw [stateView_safe]
-      simp [safeSys, nativeSys, hsv, overlay, Changes.find?]
-    · simpa [safeSys, nativeSys, hsv] using hgood.1
-    · simpa [safeSys, nativeSys, hsv] using hgood.2
+    have hgood := applyBlock_good cfg st c h b hp hg
+    refine ⟨(applyBlock cfg st c (h + 1) b).1, ?_, ?_, ?_⟩
+    · rw [stateView_native]
+      simp [nativeSys, hsv, overlay, Changes.find?]
+    · simpa [nativeSys, hsv] using hgood.1
+    · simpa [nativeSys, hsv] using hgood.2
   good_det := by
     intro sv c₁ c₂ h ⟨st, hsv, p1, g1⟩ ⟨st', hsv', p2, g2⟩
     have : st' = st := by rw [hsv] at hsv'; exact (Option.some.inj hsv').symm
@@ -131,9 +118,35 @@ theorem safeSys_adequate (cfg : Cfg) : Adequate (safeSys cfg) (Good cfg) where
     refine ⟨?_, ?_⟩
     · rw [hc]; rfl
     · intro b
-      have := applyBlock_flag cfg st' c₁ c₂.neo.votesChanged (h + 1) (b.map sanitize)
+      have := applyBlock_flag cfg st' c₁ c₂.neo.votesChanged (h + 1) b
       rw [hc]
-      simp only [safeSys, nativeSys, hsv]
+      simp only [nativeSys, hsv]
       exact ⟨by rw [this.1], by rw [this.2]⟩
+
+/-- the genesis node's caches are adequate -/
+theorem compute_genesis (cfg : Cfg) (holder : Acct) :
+    computeCommittee cfg (genesisStorage cfg holder) [] = (genesisStorage cfg holder).committee := by
+  simp [computeCommittee, genesisStorage, eligible, sortCands, alGet, totalSupply]
+
+theorem initNeo_committee (cfg : Cfg) (st : Storage) (h : Nat) : (initNeo cfg st h).committee = st.committee := by
+  unfold initNeo; split <;> rfl
+
+theorem initNeo_nextValidators (cfg : Cfg) (st : Storage) (h : Nat) :
+    (initNeo cfg st h).nextValidators = validatorsOf cfg st.committee := by
+  unfold initNeo; split <;> rfl
+
+theorem genesis_good (cfg : Cfg) (holder : Acct) :
+    Good cfg (genesisNode cfg holder).read (genesisNode cfg holder).cache 0 := by
+  refine ⟨genesisStorage cfg holder, rfl, rfl, ?_⟩
+  have hc := compute_genesis cfg holder
+  have hb : (genesisStorage cfg holder).blocked = [] := rfl
+  refine ⟨initNeo_committee cfg _ 0, initNeo_nextValidators cfg _ 0, ?_, ?_, ?_⟩
+  · have e1 : (genesisNode cfg holder).cache.neo.newEpochCommittee =
+        computeCommittee cfg (genesisStorage cfg holder) (genesisStorage cfg holder).blocked := rfl
+    rw [e1]; unfold pinned; rw [hb, hc]; split <;> rfl
+  · have e2 : (genesisNode cfg holder).cache.neo.newEpochNextValidators =
+        validatorsOf cfg (computeCommittee cfg (genesisStorage cfg holder) (genesisStorage cfg holder).blocked) := rfl
+    rw [e2]; unfold pinned; rw [hb, hc]; split <;> rfl
+  · intro _; rw [hb]; exact hc
 
 end NeoModel.Ledger.Natives
